@@ -1,5 +1,5 @@
 """C15 - card, call, contract, seat and vulnerability notations are exact inverses (complete domains)."""
-from vf.common.core import Violation, check, guard
+from vf.common.core import Stats, Violation, check, guard, orders
 from vf.common import be
 from vf.model import auction as A, play as P
 
@@ -11,11 +11,12 @@ RULE = ('complete enumeration of the finite domains: 52 cards (index, text, rank
         'formal name, clockwise neighbours), 4 vulnerabilities x {str, PBN} and all 7 accepted spellings, '
         '5 denominations, and contracts 35 bids x 3 doubling states (both encodings of redoubled) x 4 '
         'vulnerabilities x 4 declarers + passed out (2 forms) x 4 vulnerabilities through str -> '
-        'str_to_contract. Oracle: converter pairs compose to the identity, images are pairwise distinct, '
+        'str_to_contract, the contract domain visited three times in different orders (as listed, reversed, strided by the seed) so that an answer depending on earlier calls is seen. Oracle: converter pairs compose to the identity, images are pairwise distinct, '
         'and every notation equals the independent model\'s (vf/model). Every evaluated identity is counted '
         'once and is distinct by construction; non-trivial = all except the 52 reflexive card pairs.')
 ASSUMPTIONS = ['enum members are looked up by name (Bid["C1"], Player["N"]) at the boundary']
 
+SEED = [1]
 RANK_TXT = {2: '2', 3: '3', 4: '4', 5: '5', 6: '6', 7: '7', 8: '8', 9: '9', 10: 'T', 11: 'J', 12: 'Q', 13: 'K', 14: 'A'}
 
 
@@ -195,13 +196,19 @@ def _contract(bid, dbl, enc, vn, decl, stats=None):
 def _contracts(stats):
     from bridge_env import Contract, Bid
     texts = {}
+    domain = []
     for bid in range(35):
         for dbl in range(3):
             for enc in ((0, 1) if dbl == 2 else (0,)):
                 for vn in be.VUL_NAMES:
                     for decl in range(4):
-                        _contract(bid, dbl, enc, vn, decl, stats)
+                        domain.append((bid, dbl, enc, vn, decl))
             texts.setdefault(A.call_name(bid) + ('', 'X', 'XX')[dbl], (bid, dbl))
+    # the complete domain in three orders: an answer must not depend on which texts were parsed before
+    for name, items in orders(domain, SEED[0]):
+        for t in items:
+            _contract(*t, stats=stats)
+        stats.cls(f'contract domain pass ({name} order)')
     check(len(texts) == 105, 'two contracts share a text', {'n': len(texts)})
     for form in (None, 'Pass'):
         for vn in be.VUL_NAMES:
@@ -217,10 +224,13 @@ def _contracts(stats):
 
 
 def run_shard(spec, seed, tier, stats):
+    SEED[0] = seed // 1000
     fn = {'cards': _cards, 'card_pairs': _card_pairs, 'calls': _calls, 'seats': _seats, 'vuls': _vuls,
           'contracts': _contracts}[spec['kind']]
     try:
         fn(stats)
+        if spec['kind'] != 'contracts':
+            fn(Stats())          # second pass in the same process: converters must not depend on earlier calls
     except Violation as v:
         v.case = {'domain': spec['kind'], 'case': v.case}
         return [v]
